@@ -13,7 +13,7 @@ Open Scope N_scope.
    inside the checked range, inside the file); the check evaluates it on every real file. *)
 Theorem C12_one_rewrite :
   forall (f u loc f' : list N) k old,
-    wf_bytes f -> wf_bytes loc -> (length loc <= 213)%nat -> layout_okb f = true ->
+    wf_bytes f -> wf_bytes loc -> wf_loc loc -> layout_okb f = true ->
     set_location f u loc = Ok (Some (f', k, old)) ->
     exists m j pi,
       let g := ml_lo m + 256 * N.of_nat j in
@@ -56,7 +56,7 @@ Qed.
 Theorem C12_any_sequence :
   forall (f0 : list N) ops f'',
     wf_bytes f0 -> layout_okb f0 = true ->
-    Forall (fun o => wf_bytes (snd o) /\ (length (snd o) <= 213)%nat) ops ->
+    Forall (fun o => wf_bytes (snd o) /\ wf_loc (snd o)) ops ->
     set_locations f0 ops = Ok f'' ->
     wf_bytes f'' /\ layout_okb f'' = true /\ length f'' = length f0 /\
     run f'' locate_manifest_p = run f0 locate_manifest_p /\
